@@ -308,7 +308,7 @@ wav_read_header	(SF_PRIVATE *psf, int *blockalign, int *framesperblock)
 	WAV_FMT		*wav_fmt ;
 	FACT_CHUNK	fact_chunk ;
 	uint32_t	marker, chunk_size = 0, RIFFsize = 0, done = 0 ;
-	int			parsestage = 0, error, format = 0 ;
+	int			parsestage = 0, error, format = 0, data_pad = 0 ;
 
 	if (psf->is_pipe == 0 && psf->filelength > 0xFFFFFFFFLL)
 		psf_log_printf (psf, "Warning : filelength > 0xffffffff. This is bad!!!!\n") ;
@@ -441,7 +441,8 @@ wav_read_header	(SF_PRIVATE *psf, int *blockalign, int *framesperblock)
 						if (psf->datalength + psf->dataoffset < psf->filelength)
 							psf->dataend = psf->datalength + psf->dataoffset ;
 
-						psf->datalength += chunk_size & 1 ;
+						/* The pad byte of an odd sized chunk is not audio data : step over it, but do not count it. */
+						data_pad = chunk_size & 1 ;
 						chunk_size = 0 ;
 						} ;
 
@@ -449,9 +450,9 @@ wav_read_header	(SF_PRIVATE *psf, int *blockalign, int *framesperblock)
 						break ;
 
 					/* Seek past data and continue reading header. */
-					psf_fseek (psf, psf->datalength, SEEK_CUR) ;
+					psf_fseek (psf, psf->datalength + data_pad, SEEK_CUR) ;
 
-					if (psf_ftell (psf) != psf->datalength + psf->dataoffset)
+					if (psf_ftell (psf) != psf->datalength + data_pad + psf->dataoffset)
 						psf_log_printf (psf, "*** psf_fseek past end error ***\n") ;
 					break ;
 
